@@ -331,6 +331,38 @@ func c09(c *core.Ctx, r *core.Report) {
 		}
 		return ""
 	})
+	// the narrowing call of the further-matching stage: what happens to its error is decided by that stage's table
+	furtherState := 0 // 0 not computed, 1 rows hold, 2 not
+	var narrowFn *ssa.Function
+	var narrowProc *procInfo
+	furtherDecides := func(call *ssa.Call) bool {
+		if furtherState == 0 {
+			furtherState = 2
+			narrowFn, _, narrowProc = narrowingFn(c, builtinProcessors(c))
+			if narrowFn != nil && narrowProc != nil {
+				if rs, _, und := furtherPropsTable(c, narrowProc, narrowFn); und == "" {
+					ok := true
+					for _, row := range []string{"optional-cleared", "required-error", "narrowed-once"} {
+						if rr := rs[row]; rr == nil || rr.runs == 0 || len(rr.bad) > 0 {
+							ok = false
+						}
+					}
+					if ok {
+						furtherState = 1
+					}
+				}
+			}
+		}
+		if furtherState != 1 || !core.IsCallTo(call.Common(), narrowFn) {
+			return false
+		}
+		for _, f := range narrowProc.Body {
+			if f == call.Parent() {
+				return true
+			}
+		}
+		return false
+	}
 	for _, fn := range fns {
 		if p := core.PkgOf(fn); p != nil && core.IsSyslogPath(p.Pkg.Path()) {
 			continue
@@ -381,6 +413,10 @@ func c09(c *core.Ctx, r *core.Report) {
 			// ---- reasoned exceptions, each verified
 			name := calleeName(com)
 			switch {
+			case (name == "fmt.Fprintf" || name == "fmt.Fprint" || name == "fmt.Fprintln") && writesToBuilder(com):
+				byClass["never-fails"]++
+				okSites++
+				r.Hold("C09.E1", cons, pos, "exception: formatted output into a *strings.Builder: its Write is documented to always return a nil error")
 			case name == "(*strings.Builder).WriteString":
 				byClass["never-fails"]++
 				okSites++
@@ -415,6 +451,10 @@ func c09(c *core.Ctx, r *core.Report) {
 				byClass["optional-skip"]++
 				okSites++
 				r.Hold("C09.E1", cons, pos, "exception: candidate narrowing failed for an optional injection point (IsRequired()==false edge): the point is skipped")
+			case (u.Class == core.ErrSwallow || u.Class == core.ErrOther) && furtherDecides(call):
+				byClass["optional-skip"]++
+				okSites++
+				r.Hold("C09.E1", cons, pos, "exception: the narrowing error of the further-matching stage is dropped only for an optional point without candidates - decided by the further-matching table (rows optional-cleared / required-error hold on every pair of points, whatever the exit structure)")
 			default:
 				p2 := pos
 				if u.Escape != nil {
@@ -482,6 +522,15 @@ func forwardsOnlyCallbackError(c *core.Ctx, fn *ssa.Function, depth int) bool {
 		}
 	}
 	return n > 0
+}
+
+// writesToBuilder: the io.Writer argument is a *strings.Builder boxed at the call.
+func writesToBuilder(com *ssa.CallCommon) bool {
+	if len(com.Args) == 0 {
+		return false
+	}
+	mi, ok := com.Args[0].(*ssa.MakeInterface)
+	return ok && mi.X.Type().String() == "*strings.Builder"
 }
 
 func anyClosureArgReturnsOnlyNil(call *ssa.Call) bool {
